@@ -67,6 +67,7 @@ func main() {
 	fixCase := flag.String("fix-case", "", "name=val,... pins verifCase values (debugging)")
 	cpuprof := flag.String("cpuprofile", "", "write cpu profile")
 	flag.IntVar(&SolveBudgetS, "solve-budget-s", SolveBudgetS, "wall-clock budget for discharging the obligations of one harness; what is left is reported unknown (0 = unlimited)")
+	flag.IntVar(&AbstractGraceS, "abstract-grace-s", AbstractGraceS, "seconds to wait for a precise verdict after an abstracted query answered sat")
 	flag.IntVar(&TermBudget, "term-budget", TermBudget, "abort a harness run that builds more than this many terms (0 = unlimited)")
 	flag.Parse()
 	if *cpuprof != "" {
